@@ -43,6 +43,16 @@ func PoolResets(p *load.Program, run *report.Run) {
 	if puts > 0 && len(bad) == 0 {
 		run.OK(rule, "module", "", fmt.Sprintf("%d Put sites, no appended-to field goes back unreset", puts))
 	}
+	// second rule: a pooled object keeps no memory of its caller
+	const rule2 = "pooled-object-keeps-no-caller-memory"
+	run.Rule(rule2, "no function stores a slice, pointer or map parameter (itself or a sub-slice of it, not a copy) into a field of an object it took out of a sync.Pool: the object outlives the call, the caller may reuse the memory — a cached key that aliases the caller's key buffer always compares equal to it")
+	kept := pooledKeepsParam(fns)
+	for _, k := range kept {
+		run.Violate(rule2, strings.ReplaceAll(k.Parent().RelString(nil), load.Module+"/", "")+"/pooled field", p.Rel(k.Pos()), "a parameter of reference type is stored into an object that came out of a sync.Pool and goes back into it: the object then refers to memory the caller still owns and may overwrite (a cached copy of a key must be a copy)", nil)
+	}
+	if len(kept) == 0 {
+		run.OK(rule2, "module", "", "no pooled object is handed caller memory")
+	}
 	look, err := buildExample(poolResetExample)
 	if err != nil {
 		run.Undecided(rule, "built-in example", "", err.Error())
@@ -51,6 +61,10 @@ func PoolResets(p *load.Program, run *report.Run) {
 	var ex []*ssa.Function
 	ex = exampleFuncs(look)
 	n, b := poolResetCheck(ex, func(token.Pos) string { return "example" })
+	if k := pooledKeepsParam(ex); len(k) != 1 || k[0].Parent().Name() != "cacheAlias" {
+		run.Undecided(rule2, "built-in example", "", fmt.Sprintf("the rule misclassifies its built-in examples (%d reports)", len(k)))
+		return
+	}
 	if n != 3 || len(b) != 1 || !strings.Contains(b[0].key, "releaseLeaky") {
 		run.Undecided(rule, "built-in example", "", fmt.Sprintf("the rule misclassifies its built-in examples (%d put sites, %d reports)", n, len(b)))
 		return
@@ -297,6 +311,18 @@ func acquireClean() *enc3 {
 func (e *enc3) releasePlain() {
 	pool3.Put(e)
 }
+
+func cacheAlias(key []byte) *enc {
+	e := pool.Get().(*enc)
+	e.buf = key
+	return e
+}
+
+func cacheCopy(key []byte) *enc {
+	e := pool.Get().(*enc)
+	e.buf = append(e.buf[:0], key...)
+	return e
+}
 `
 
 // exampleFuncs lists every function and method of a built-in example package.
@@ -316,3 +342,61 @@ func exampleFuncs(look func(string) *ssa.Function) []*ssa.Function {
 }
 
 func ssautilAll(prog *ssa.Program) map[*ssa.Function]bool { return ssautil.AllFunctions(prog) }
+
+// pooledKeepsParam lists the stores of a reference-typed parameter into a field of an object taken from a pool.
+func pooledKeepsParam(fns []*ssa.Function) []*ssa.Store {
+	var out []*ssa.Store
+	for _, fn := range fns {
+		pooled := map[ssa.Value]bool{}
+		for _, b := range fn.Blocks {
+			for _, ins := range b.Instrs {
+				if ta, ok := ins.(*ssa.TypeAssert); ok {
+					if c, ok := ta.X.(*ssa.Call); ok && c.Call.StaticCallee() != nil && isPoolMethod(c.Call.StaticCallee(), "Get") {
+						pooled[ta] = true
+						if ta.Referrers() != nil {
+							for _, r := range *ta.Referrers() {
+								if ex, ok := r.(*ssa.Extract); ok && ex.Index == 0 {
+									pooled[ex] = true
+								}
+							}
+						}
+					}
+				}
+			}
+		}
+		if len(pooled) == 0 {
+			continue
+		}
+		for _, b := range fn.Blocks {
+			for _, ins := range b.Instrs {
+				st, ok := ins.(*ssa.Store)
+				if !ok {
+					continue
+				}
+				fa, ok := st.Addr.(*ssa.FieldAddr)
+				if !ok || !pooled[fa.X] {
+					continue
+				}
+				v := st.Val
+				for d := 0; d < 4; d++ {
+					switch t := v.(type) {
+					case *ssa.Slice:
+						v = t.X
+						continue
+					case *ssa.ChangeType:
+						v = t.X
+						continue
+					}
+					break
+				}
+				if prm, ok := v.(*ssa.Parameter); ok {
+					switch prm.Type().Underlying().(type) {
+					case *types.Slice, *types.Pointer, *types.Map:
+						out = append(out, st)
+					}
+				}
+			}
+		}
+	}
+	return out
+}
